@@ -63,6 +63,61 @@ CLAIMS = {
         'Thread.run resolves its future exactly once on every path and never raises; the child sends exactly one (result, error) pair of an allowed kind on every way the target ends and closes the pipe on every exit; the collector resolves the future exactly once on every exit (result, EOF after a signal, failing recv) and cannot die with it pending; join/result/exception read the future only after the OS-level join, the collector join and a passed finished-test; wait/as_completed index and look up by the same key. Not verified: exit-code values, signal timing.',
         'DESIGN.md 4/C12',
     ),
+    'C03': (
+        'ast taint / shape rules over all streamlet constructors and operator methods, per-iteration COUNT for Mapper/Filter, PRECEDE for batch ownership',
+        'THIN. Decides only: building a pipeline never iterates / next()s / eagerly consumes the incoming stream; every operator consumes its input as the iterable of a loop that yields or hands it to a lazy combinator (Tailer/Shuffler exempt, memory bounded); Mapper yields func(element) exactly once and Filter at most the element itself per element; every operator method appends exactly one streamlet built on self.streamlets[-1] and returns self (or delegates); Peeker and the filter_exceptions predicate are identities; a yielded batch is never mutated. Declined: the equivalence with the sequential meaning for all inputs and operator sequences (value-level).',
+        'DESIGN.md 4/C03',
+    ),
+    'C04': (
+        'ast + CFG: EXITS (user-code exceptions contained per request), GUARD (path-sensitive isinstance facts with disjunctive states) at every output put and every hand-over to user code / member stages, FRESH for the batch error fan-out',
+        'Every call of per-request user code (Worker.call via stream, preprocess) is contained by a handler that makes the exception that request value and stays in the loop; every value put on an output queue is a RemoteException, proven not an Exception, or fresh data on every path; values handed to user code / member stages are proven clean and the exception path short-circuits; a failed batch fans its error out over exactly the ids of this batch; gather unwraps RemoteException and calls set_exception iff BaseException. Not verified: traceback text content (C15), the numeric EnsembleError rules.',
+        'DESIGN.md 4/C04',
+    ),
+    'C08': (
+        'LINEAR evaluation of queue / pool / capacity expressions over the bound parameter with assert-derived lower bounds; WHO/taint on the producer loop; known-finding mechanism for C08-4',
+        'The hand-off queues of fifo_stream, async_fifo_stream, Buffer, AsyncBuffer have size a*p+b with a<=1, b<=1 and lower bound >=1; producers hand over with the blocking put only and keep pulled elements nowhere else; executors are created with max_workers = concurrency and fifo capacity 2*concurrency; implementations that start the invocation at submission must gate by a semaphore (reported as KNOWN-FINDING for the two async parmappers, see known_findings.txt). Not verified: executor internals, actual instantaneous counts.',
+        'DESIGN.md 4/C08',
+    ),
+    'C11': (
+        'ast + CFG: EXITS with launch steps as fallible (rollback before re-raise), per-iteration COUNT of start/handshake, PRECEDE on the exit order, PAIR (started attributes joined in stop), sentinel MUSTPASS per service loop from a reasoned table',
+        'Every exceptional exit of a start() after a launch passes a stopper and re-raises; one start and one handshake per worker, Worker.run puts exactly one handshake; when an onboarding thread exists its end marker and join dominate servlet.stop(); every attribute receiving a started thread/process is joined in stop / the exit, compound servlets stop every member; the started flag is set only after the last launch and reset by stop, per-run queues are not created in __init__; every service loop forwards the sentinel to the queues it is responsible for and terminates. Not verified: sentinel overtaking between stages with work in flight (conceded by the Servlet.stop docstring), OS-level reaping.',
+        'DESIGN.md 4/C11',
+    ),
+    'C13': (
+        'EFFECT analysis: whole-function COUNT of +1/-1 reference-count events per CFG path with an owner obligation (registered finaliser), AGREE between picklers and RebuildProxy, PRECEDE in Server.create',
+        'Proxy construction increments exactly once and registers a finaliser bound to _decref with the same token and an exit priority; _decref decrements exactly once; __reduce__ increments exactly once on every path and overrides go through super(); RebuildProxy constructs with an increment that is independent of process state and compensates exactly once after construction; create() registers object and count entry before the proxy is built; MemoryBlock finaliser closes and unlinks the same SharedMemory. Not verified: histories of create/copy/pass/drop (the counts themselves), finaliser execution at interpreter exit.',
+        'DESIGN.md 4/C13',
+    ),
+    'C14': (
+        'AGREE of message-kind tables (including the installed stdlib convert_to_error, parsed not imported from the repo), EXITS containment, method-name tables checked against the builtin referent types, GUARD/MUSTPASS on the in-server shortcut',
+        'THIN. Every message kind the server can produce is consumed by the proxy or convert_to_error; a hosted-method exception becomes (#ERROR, RemoteException(e)) and the serve loop survives a failing dispatch; every add_proxy_methods name exists on the registered referent type and the generated method forwards name/args/kwargs; on the in-server shortcut the RemoteException wrapper is rebuilt into the original exception before raise convert_to_error. Declined: round-trips, visibility of state changes, liveness of managed values (value-level).',
+        'DESIGN.md 4/C14',
+    ),
+    'C15': (
+        'AGREE (reduce/rebuild, storage attribute, EnsembleError args), GUARD on RemoteException.__init__ (text produced on every non-raising path)',
+        'THIN. __reduce__ returns (_rebuild_exception, (self.exc, self.tb)) and the rebuild function reattaches RemoteTraceback(tb) as __cause__; on every non-raising path of __init__ the stored text was given, formatted from a traceback or forwarded from the remote one; the forwarded text is reused only when there is no own traceback; storage attribute and remoteness test agree; EnsembleError round-trips its results and nested members are re-wrapped. Declined: arbitrary picklable exception classes, hop counts, text equality.',
+        'DESIGN.md 4/C15',
+    ),
+    'C17': (
+        'ast + CFG: HELD (one lock region around move-token-and-test-full, lock carried in the pickled state), COUNT of token/marker moves per path, PRECEDE in renew, EXITS of the responsive wait loop',
+        'applied.get / used.put / the following used.full() are one region of a lock that travels with the object; put_end, a consumed marker and renew conserve tokens and markers exactly (renew removes the marker before recycling); ResponsiveQueue waits in slices of min(wait interval, remaining), tests the stop event after each expiry, re-raises Full/Empty on expiry and can only return the result of the delegated call; IterableQueue wraps whenever a stop event is given. Not verified: exactly-once delivery of data items (delegated to the underlying queue), cross-process sampling.',
+        'DESIGN.md 4/C17',
+    ),
+    'C18': (
+        'AGREE of writer/reader framing and codec tables, FRESH closure on id routing, suspension-point check between send and record, WHO for connection writers, fifo pattern rules on SocketClient.stream, AGREE of pipe suffixes',
+        'Header is id SP len(bytes) SP encoder LF followed by those bytes, read with readuntil/readexactly(int(len)); encode/decode tables are inverse; server and client route by ids obtained in the same iteration, int on both sides; no await between the completed send and recording the future; one writer task per connection; handler exceptions become RemoteException for that request; stream pairs element and future freshly through an SPSC FIFO; pipe ends are cross-wired read-only/write-only Connections. Not verified: payload intactness itself (pickle + asyncio streams trusted), sizes.',
+        'DESIGN.md 4/C18',
+    ),
+    'C19': (
+        'ast + CFG of EagerBatcher.__iter__: COUNT (placements per item, yields per batch, append vs counter), marker-branch MUSTPASS, deadline-shape dataflow, PRECEDE for batch ownership',
+        'Every dequeued item that is not the end marker (both forms) is placed in exactly one batch and the marker never is; every started batch is yielded exactly once (full, wait expired, or flushed by the marker); batches start with one element and grow by one per counted iteration under a strict < batch_size guard; only the first get is untimed, later gets are bounded by a deadline fixed after the first element from batch_wait_time, queue.Empty releases the batch; a yielded batch is not mutated. Not verified: virtual-time claims.',
+        'DESIGN.md 4/C19',
+    ),
+    'C20': (
+        'ast + CFG: PRECEDE with observed-dead edges (exitcode tests / untimed OS join) before the parent-side end marker, path-sensitive MUSTPASS for handler install/removal around the target, WHO for readers of the log queue',
+        'The parent enqueues the end marker of its log reader only on paths that observed the child dead; the queue handler is installed before the target runs and removed (queue closed) in the finally on every exit; failures are reported before the error is sent; only the single logger thread reads the queue, started exactly once per start(), records gated only by level. Not verified: volumes, ordering inside multiprocessing.Queue.',
+        'DESIGN.md 4/C20',
+    ),
 }
 
 NOT_YET = 'check not built yet in this session (rules planned in DESIGN.md section 4); not claimed until its rules exist'
